@@ -244,9 +244,26 @@ def run(ctx):
     else:
         ctx.violation("R4.1", "CT_RegularTextRun.text.setter", "run text is not stored as the escaped value in a:t (and only that)",
                       file=run_c.file, line=rs.line if rs else run_c.line)
-    rets = [n.value for n in walk_own(rg.node) if isinstance(n, ast.Return)] if rg else []
-    good = bool(rets) and all(isinstance(r, ast.BoolOp) and isinstance(r.op, ast.Or) and prog.const(r.values[-1], rg.module) == "" for r in rets)
-    src_t = any(isinstance(n, ast.Attribute) and n.attr == "text" and dotted(n.value) == "self.t" for n in ast.walk(rg.node)) if rg else False
+    # the getter in canonical form (a shared `_text_of(t)` helper is read in place): every return is `self.t.text or ""`, or the
+    # constant "" on a path that has established that there is no a:t
+    from sa import paths as _P4
+    from sa.inline import expand as _exp4
+
+    good, src_t = False, False
+    if rg is not None:
+        rgx = _exp4(prog, rg, local_only=True)
+        rval = _P4.value_aliases(rgx)
+        rrows = [r_ for r_ in _P4.outcomes(rgx.body, _P4.aliases(rgx)) if r_.end == "return"]
+        good = bool(rrows)
+        for r_ in rrows:
+            v_ = ast.parse(_P4.full(r_.path.end_node.value, rval), mode="eval").body if r_.path.end_node.value is not None else None
+            if isinstance(v_, ast.BoolOp) and isinstance(v_.op, ast.Or) and prog.const(v_.values[-1], rg.module) == "" \
+                    and ast.unparse(v_.values[0]) == "self.t.text":
+                src_t = True
+            elif v_ is not None and prog.const(v_, rg.module) == "" and _P4.implied(r_.facts, lambda a: a[0] == "none" and a[1] == "self.t" and a[2] is True):
+                pass
+            else:
+                good = False
     if good and src_t:
         ctx.ok("R4.1", "CT_RegularTextRun.text.getter", sample={"returns": "a:t text or ''"})
     else:
@@ -436,7 +453,10 @@ def run(ctx):
                 kinds = kinds if isinstance(kinds, (tuple, list)) else (kinds,)
                 if all(isinstance(k, ClassRef) for k in kinds):
                     seen_cc = True
-                    content = {k.cls.name for k in kinds}
+                    # a class stands for the registered element classes that are (subclasses of) it: a marker base / mixin selects
+                    # exactly the element kinds that inherit it
+                    content = {c_.name for k in kinds for c_ in M.oxml_classes() if k.cls in prog.mro(c_) and M.tags_for_class(c_)} \
+                        or {k.cls.name for k in kinds}
                     doc_order = dotted(g.elt) == g.generators[0].target.id
     want_c = {"CT_RegularTextRun", "CT_TextLineBreak", "CT_TextField"}
     if not seen_cc:
